@@ -154,6 +154,16 @@ static void yuv_wide_case (pixman_format_code_t f, vf_rng *r)
             for (int c = 0; c < 4; c++) if (!(q[c] >= want[c] - 1e-5 && q[c] <= want[c] + 1e-5)) { char key[96]; snprintf (key, sizeof key, "C10:decodef-yuv:%s", rp_name (f));
                 vf_violation (key, "pixel (%d,%d) channel %d (r,g,b,a): float reader gives %.6f, the 8-bit reader %08x i.e. %.6f", x, y, c, q[c], p, want[c]); y = h; x = w; break; } }
     }
+    /* a scanline read that starts at any column (odd ones too: chroma is shared by pixel pairs) equals the single-pixel reader */
+    { pixman_image_t *a = pixman_image_create_bits (PIXMAN_a8r8g8b8, w, h, NULL, 0), *b = pixman_image_create_bits (PIXMAN_a8r8g8b8, w, h, NULL, 0);
+      if (a && b) { const uint32_t *ap = pixman_image_get_data (a), *bp = pixman_image_get_data (b); int st = pixman_image_get_stride (a) / 4;
+        for (int k = 0; k < 9; k++) { int ww = w - k;
+            pixman_image_set_transform (s, NULL); pixman_image_composite32 (PIXMAN_OP_SRC, s, NULL, a, k, 0, 0, 0, 0, 0, ww, h);
+            pixman_transform_t t2 = { { { 2 * 65536, 0, 0 }, { 0, 2 * 65536, 0 }, { 0, 0, 2 * 65536 } } }; pixman_image_set_transform (s, &t2); pixman_image_composite32 (PIXMAN_OP_SRC, s, NULL, b, k, 0, 0, 0, 0, 0, ww, h);
+            pixman_image_set_transform (s, NULL); vf_count ("evaluations", (long)ww * h);
+            for (int y = 0; y < h; y++) for (int x = 0; x < ww; x++) if (ap[y * st + x] != bp[y * st + x]) { char key[96]; snprintf (key, sizeof key, "C10:scanline-vs-pixel:%s", rp_name (f));
+                vf_violation (key, "read starting at column %d: pixel (%d,%d) is %08x by scanline, %08x by the single-pixel reader", k, x + k, y, ap[y * st + x], bp[y * st + x]); y = h; k = 9; break; } } }
+      if (a) pixman_image_unref (a); if (b) pixman_image_unref (b); }
     vf_cell ("cells", vf_mix (901, (uint64_t)f));
     if (n) pixman_image_unref (n); if (fl) pixman_image_unref (fl); pixman_image_unref (s); free (buf);
 }
@@ -258,6 +268,16 @@ static void c10_case (long idx, vf_rng *r)
                 if (fabs (got[c] - want[c]) > tol) { snprintf (key, sizeof key, "C10:decode-float:%s", rp_name (f)); vf_violation (key, "x=%d channel %d reads as %.7f, the field denotes %.7f", off + i, c, got[c], want[c]); i = n; break; }
             }
         }
+        /* the same through the single-pixel float reader (forced by a non-affine identity transform): readers agree */
+        { vf_buf D2; vf_buf_alloc (&D2, PIXMAN_rgba_float, n, 1, 0, 0, VF_PLACE_END); pixman_image_t *d2 = vf_buf_image (&D2);
+          pixman_transform_t t2 = { { { 2 * 65536, 0, 0 }, { 0, 2 * 65536, 0 }, { 0, 0, 2 * 65536 } } };
+          pixman_image_set_transform (simg, &t2); src_to (simg, d2, off, n); pixman_image_set_transform (simg, NULL);
+          float *g2 = (float *)D2.base;
+          for (int i = 0; i < n; i++) { int bad = 0;
+              for (int c = 0; c < 4; c++) { double tol = rp_is_srgb (f) && c < 3 ? 2e-3 : 2e-6; if (fabs ((double)g2[4 * i + c] - (double)g[4 * i + c]) > tol) { snprintf (key, sizeof key, "C10:float-scanline-vs-pixel-reader:%s", rp_name (f));
+                  vf_violation (key, "x=%d channel %d (r,g,b,a): single-pixel reader %.7f, scanline reader %.7f", off + i, c, g2[4 * i + c], g[4 * i + c]); bad = 1; break; } }
+              ne += 4; if (bad) break; }
+          pixman_image_unref (d2); vf_buf_free (&D2); }
         vf_count ("evaluations", ne); vf_cell ("cells", vf_mix (vf_mix (2, (uint64_t)f), vf_mix (chunk, off)));
         pixman_image_unref (d); vf_buf_free (&D);
     }
